@@ -83,7 +83,8 @@ oscore_cbor_put_text(uint8_t **buffer,
   assert(*buf_size >= text_len);
   (*buf_size) -= text_len;
   *pt = (*pt | 0x60);
-  memcpy(*buffer, text, text_len);
+  if (text_len)
+    memcpy(*buffer, text, text_len);
   (*buffer) += text_len;
   return nb + text_len;
 }
@@ -106,7 +107,8 @@ oscore_cbor_put_bytes(uint8_t **buffer,
   assert(*buf_size >= bytes_len);
   (*buf_size) -= bytes_len;
   *pt = (*pt | 0x40);
-  memcpy(*buffer, bytes, bytes_len);
+  if (bytes_len)
+    memcpy(*buffer, bytes, bytes_len);
   (*buffer) += bytes_len;
   return nb + bytes_len;
 }
